@@ -1,5 +1,5 @@
 (* C13 -- Block option values encode and decode per RFC 7959 section 2.2. *)
-From CoapV Require Import Base UintOpt BlockValue Suite13 proofs.P06 proofs.P13.
+From CoapV Require Import Base UintOpt BlockValue Suite13 proofs.P06 proofs.P13 proofs.P13b.
 
 Theorem C13_roundtrip : forall num more szx, num < 65536 -> szx < 8 ->
   let b := mkBlock num more szx in
@@ -28,6 +28,12 @@ Theorem C13_new_size : forall num more size b, 0 < size -> size < 4096 -> block_
   block_size b = N.max 16 (2 ^ N.log2 size) /\ (16 <= size -> block_size b <= size /\ size < 2 * block_size b).
 Proof. exact block_new_size. Qed.
 Print Assumptions C13_new_size.
+
+(* the model passes the suite-130 oracle -- the RFC 7959 2.2 specification spec130, written independently of the
+   model: minimal uint NUM<<4|M<<3|SZX, decode by division, BlockValue::new by log2 -- on EVERY input *)
+Theorem C13_model_passes_oracle : forall s, verdict130 s (run130 s) = true.
+Proof. exact model_passes_oracle130. Qed.
+Print Assumptions C13_model_passes_oracle.
 
 Example C13_example :
   block_encode (mkBlock 4096 true 2) = Ok [1; 0; 10] /\ block_decode [1; 0; 10] = Ok (mkBlock 4096 true 2) /\
